@@ -128,8 +128,13 @@ class FrozenCircuit(AbstractCircuit, protocols.SerializableByKey):
         return super()._has_unitary_()
 
     @_compat.cached_method
-    def _unitary_(self) -> np.ndarray | NotImplementedType:
+    def _cached_unitary(self) -> np.ndarray | NotImplementedType:
         return super()._unitary_()
+
+    def _unitary_(self) -> np.ndarray | NotImplementedType:
+        # The caller owns the returned array (as with `Circuit`); the cached one is never handed out.
+        unitary = self._cached_unitary()
+        return unitary if unitary is NotImplemented else unitary.copy()
 
     @_compat.cached_method
     def _is_measurement_(self) -> bool:
